@@ -161,7 +161,7 @@ OVLE_GRID = Grid(
 SALT_IDS = vc.package_ids('SALT')
 SALT_GRID = Grid(
     'SALT', [c for c in subsets(SALT_IDS) if 'NaCl' in c and any(x in c for x in ('Water', 'Ethanol', 'Propanol'))],
-    ('one', 'big0', 'lo0'), ('one', 'big0', 'big1', 'lo0', 'hi0', 'lo-1', 'hi-1'),
+    ('one', 'big0', 'lo0'), ('one', 'big0', 'big1', 'lo0'),
     ('l', 'half', 'Sl', 'g'),
     lambda cfg: vle_calls(n_volatile(cfg[0], cfg[1]) == 2), vle_call_coords,
     bases=[(('Water', 'Ethanol', 'NaCl'), 'big0', 'l', ('PV', True, True)),
@@ -285,6 +285,43 @@ def method_actions(system, st):
     for pair in ('TP', 'TV', 'PV', 'PH', 'PS'):
         for a in V[pair[0]]:
             for b in V[pair[1]]: out.append(('vle', pair, a, b))
+    return out
+
+# ---- vlle with vapour and a SINGLE liquid (at most one LLE-capable chemical + light gas), incl. the constructor flag vlle=True ------------
+def vlle_calls(cfg):
+    out = [('vlle', 'TP', T, P) for T in (300., 320., 350., 365., 380.) for P in (101325., 1e4)]
+    out += [('ctor', k, T, 101325.) for k in ('S', 'M') for T in (300., 320., 365.)]
+    return out
+def vlle_call_coords(a):
+    return (a[0] + ':' + a[1], a[2] == 300., a[3] == 101325.)
+VLLE_GRIDS = TwoGrids(
+    Grid('VLE', [c for c in subsets(VLE_IDS) if sum(1 for i in c if i in ('Water', 'Ethanol', 'Propanol')) <= 2], ('one', 'hi0'), ('one', 'hi0'),
+         ('l', 'half', 'g', 'Sl', 'gl-L'), vlle_calls, vlle_call_coords,
+         bases=[(('Water', 'N2'), 'one', 'l', ('vlle:TP', True, True)), (('Water', 'Ethanol', 'N2', 'Glucose'), 'one', 'half', ('ctor:S', True, True)),
+                (('Water', 'N2', 'Glucose'), 'one', 'g', ('ctor:M', True, True))], max_dev=1),
+    Grid('VL3', subsets(vc.package_ids('VL3')), ('one', 'hi0'), ('one', 'hi0', 'lo-1'),
+         ('l', 'half', 'g', 'Sl', 'gl-L'), vlle_calls, vlle_call_coords,
+         bases=[(('Water', 'N2'), 'one', 'l', ('vlle:TP', True, True)), (('Water', 'Octane', 'N2'), 'one', 'gl-L', ('ctor:M', True, True)),
+                (('Ethanol', 'N2'), 'hi0', 'Sl', ('vlle:TP', True, True))], max_dev=1))
+
+# ---- LLE warm-start cache with enlarged tolerances: binary pairs, second call inside the tolerance but outside the two-liquid envelope ----
+LLC_PAIRS = [(('Water', '1-Butanol'), (1., 0.05)), (('Water', 'EthylAcetate'), (1., 0.04)), (('Water', 'Octanol'), (1., 0.05)), (('Hexane', 'Ethanol'), (1., 0.3)),
+             (('Water', '1-Butanol'), (0.3, 1.))]
+LLC_OPTS = [('opts', (('lle_ctol', 0.05),)), ('opts', (('lle_ctol', 0.05), ('lle_ttol', 30.))), ('opts', ()), ('opts', (('lle_ctol', 0.5), ('lle_ttol', 100.)))]
+def llc_configs(system, tier, seed):
+    pairs = LLC_PAIRS[:2] if tier == 'quick' else LLC_PAIRS
+    opts = LLC_OPTS[:2] if tier == 'quick' else LLC_OPTS
+    out = [('LL', c, f, dist, o) for c, f in pairs for o in opts for dist in (('l',) if tier == 'quick' else ('l', 'lL'))]
+    k = seed % len(out)
+    return out[k:] + out[:k]
+def llc_actions(system, st):
+    comp = st.config[1]
+    calls = [('lle', 'T', 298.15, None), ('lle', 'T', 320., None), ('lle', 'Ttop', 298.15, comp[0])]
+    out = list(calls)
+    if st.extra.get('last_kind') not in (None, 'edit'):
+        fs = (0.2, 5.0) if system.tier == 'quick' else (0.2, 0.5, 2.0, 5.0)
+        out += [('edit', comp[1], f) for f in fs]
+        if system.tier != 'quick': out += [('edit', comp[0], 0.5), ('edit', comp[0], 2.0)]
     return out
 
 # ---- reactive flash followed by plain flashes ---------------------------------------------------------------------------------------------
@@ -421,6 +458,14 @@ SYSTEMS = [
     FlashSystem('c03.method.grid', method_configs, method_actions, oracle, 1, 1,
                 describe=dict(package='VLE', vle_method='shgo', compositions='quick 6 explicit (N2 1-33 % of the stream, with / without Glucose); thorough every subset with >= 2 volatile chemicals x locked members at 0.1 / 1 x first chemical x1 / x3 x {l, Stream l}',
                               calls='quick 10; thorough TP/TV/PV/PH/PS on T {300,350,361,400}, P {1e4,101325,1e6}, V {.02,.5,.8,.98}, fractions {0,.3,.7,1}')),
+    FlashSystem('c03.vlle.grid', VLLE_GRIDS.enum_configs, VLLE_GRIDS.enum_actions, oracle, 1, 1,
+                describe=lambda tier: dict(packages=['VLE (N2 gas-locked, Glucose solid-locked; <= 2 of the volatile chemicals)', 'VL3 = (Water, Ethanol, Octane, N2) without locks'],
+                                           calls='vlle(T,P) T {300,320,350,365,380} x P {101325,1e4}; Stream(..., vlle=True) and MultiStream(..., vlle=True) built from the current totals, T {300,320,365}',
+                                           bound='deviation<=1 from base points' if tier == 'quick' else 'full product')),
+    FlashSystem('c03.lle.cache', llc_configs, llc_actions, oracle, 3, 3,
+                describe=dict(package='LL', what='binary pairs; LLE.composition_cache_tolerance / temperature_cache_tolerance enlarged (0.05 / 30 K; thorough also default and 0.5 / 100 K); '
+                              'lle calls at 298.15 / 320 K separated by edits of one chemical (x0.2, x5; thorough x0.5, x2 and the major chemical)',
+                              rule='first action is a call; never two edits in a row')),
     FlashSystem('c03.react', react_configs, react_actions, oracle, 3, 3,
                 describe=dict(package='RX = (EthylLactate, LacticAcid, Water, Ethanol)', alphabet='plain TP / PV / TV / PH calls + vle(T,P, liquid_conversion=) + vle(T,P, gas_conversion=) '
                               '(LacticAcid + Ethanol -> Water + EthylLactate, X = 0.2); the reactive call itself is not judged, every later plain call is')),
